@@ -63,32 +63,32 @@ CHECKS = {
   ref="6/C11"),
  "C08": dict(
   technique="property-based testing with rapid: generated projects (incl. rejected ones) -> every emitted document checked by an independent OpenAPI validity/closure predicate; real CLI for the no-file-on-failure clause",
-  text="Generated-input search over projects aimed at closure (prefix parameters, pointer path parameters, duplicate wire names, types reachable through maps/slices/pointers, varied and undeclared security schemes). Every document gleece emits (both versions in-process, the configured one through the real CLI) is checked by internal/oas (plain encoding/json): $ref resolution, template/path-parameter bijection, unique (name,in), response descriptions, enum member types, unique operationIds, and info/servers/securitySchemes against the configuration; a failing `generate spec` must leave no file. Sampling.",
+  text="Generated-input search over projects aimed at closure (prefix parameters, pointer path parameters, duplicate wire names, types reachable through maps/slices/pointers, varied and undeclared security schemes). Every document gleece emits (both versions in-process, the configured one through the real CLI) is checked by internal/oas (plain encoding/json): $ref resolution, template/path-parameter bijection, unique (name,in), response descriptions, enum member types, unique operationIds, and info/servers/securitySchemes against the configuration; a failing `generate spec` must leave no file; in every other project the command runs over an existing, longer document and must leave exactly the new one. A second part feeds the linkage lab's perturbed projects (catalogue sweep first) and applies the same predicate to whatever gets emitted for them. Sampling.",
   note="Trusts: rapid; the validity predicate in internal/oas/oas.go (it is the statement's list, not a full OpenAPI validator); in-process bytes are cross-checked against the CLI's file on every accepted case.",
   ref="6/C08"),
  "C10": dict(
   technique="property-based testing with rapid: well-formed routes + 0-2 catalogue perturbations; independent WellLinked predicate vs gleece's accept/reject; real CLI for output blocking",
-  text="Generated-input search in the linkage lab: routes are modelled as template names, annotations (kind, reference, alias), Go parameters with types, result lists and verb; 0, 1 or 2 perturbations from a catalogue of 21 are applied; an independent predicate implementing the six link rules of the statement decides whether every route is well-linked; gleece's decision (no error diagnostic and Run() succeeds) must coincide, both directions counted separately; after each rejection the real CLI must exit non-zero and leave neither routes nor spec. Sampling over routes and perturbation pairs.",
+  text="Generated-input search in the linkage lab: routes are modelled as template names, annotations (kind, reference, alias), Go parameters with types, result lists and verb; 0, 1 or 2 perturbations from a catalogue of 32 are applied, after a deterministic sweep of the whole catalogue (two generated base projects with two controllers, one of them carrying a route-conflict warning throughout, every option of every entry); an independent predicate implementing the six link rules of the statement decides whether every route is well-linked; gleece's decision (no error diagnostic and Run() succeeds) must coincide, both directions counted separately; after each rejection the real CLI must exit non-zero and leave neither routes nor spec. Sampling over routes and perturbation pairs.",
   note="Trusts: rapid; the WellLinked predicate in props/static/linkage_test.go (the statement's rules plus the one recorded narrowing: a bare primitive body is ill-formed); known findings matched by rule + culprit perturbation.",
   ref="6/C10"),
  "C18": dict(
   technique="property-based testing with rapid: the C10 perturbation generator with layout noise; the renderer's recorded line spans and annotation values are the oracle for every diagnostic's file, range, covered text, code and uniqueness",
-  text="Generated-input search over rejected/warned projects: perturbed routes are rendered with free text and multibyte characters before the annotations, several controllers per file, several files, type groups; the renderer records where every comment block and declaration is. Every diagnostic from Validate() must name the entity's file, have start<=end, lie inside the file and inside the entity's comment or declaration, cover text equal to an annotation value for value-anchored codes, carry the code/severity expected for the single perturbation applied, and be unique; the CLI's error text must not list a diagnostic twice. Sampling.",
+  text="Generated-input search over rejected/warned projects: perturbed routes are rendered with free text and multibyte characters before the annotations, several controllers per file, several files, type groups; the renderer records where every comment block and declaration is. Every diagnostic from Validate() must name the entity's file, have start<=end, lie inside the file and inside the entity's comment or declaration, cover text equal to an annotation value for value-anchored codes, carry the code/severity expected for the single perturbation applied, and be unique (the catalogue sweep of C10 runs first; doc comments are indented in most routes); the CLI's error text must not list a diagnostic twice. Sampling.",
   note="Trusts: rapid; the renderer's span bookkeeping; the expected-code table transcribed from the validators; columns accepted in runes or bytes.",
   ref="6/C18"),
  "C19": dict(
   technique="stateful property testing with rapid: generated call histories on one GleecePipeline vs a fresh pipeline; equality of reduction results, diagnostics, graph size and generated artefacts",
-  text="Generated-input search over projects x call histories (GenerateGraph / Validate / GenerateIntermediate / Run in any order after the first graph generation) on one long-lived pipeline; every reduction result must equal the first of the session and a brand-new session's result (import sets compared as sets), Validate() must repeat its diagnostics, node and edge counts obtained through the public graph API must stay constant and equal a fresh session's, and the spec and routes bytes generated from the session's last result must equal those of the fresh session. Sampling.",
+  text="Generated-input search over projects x call histories (GenerateGraph / Validate / GenerateIntermediate / Run in any order after the first graph generation) on one long-lived pipeline; every reduction result must equal the first of the session and a brand-new session's result (import sets compared as sets), Validate() must repeat its diagnostics, node and edge counts and the enum/struct payloads obtained through the public graph API must stay constant and equal a fresh session's, and the spec and routes bytes generated from the session's last result must equal those of the fresh session. Sampling.",
   note="Trusts: rapid; canonical JSON of GleeceFlattenedMetadata as the equality; in-process driving through public pipeline methods.",
   ref="6/C19"),
  "C09": dict(
   technique="property-based testing with rapid: generated projects biased to template concatenation hazards -> real gleece for all five engines -> go/parser + go vet (type-check) + gofmt as validity predicate; attribution of failures by re-running a renamed project",
-  text="Generated-input search over projects whose parameter names collide with identifiers the handlers declare, whose types come from several packages behind slices/pointers/maps, with every result shape, custom errors by value and pointer, experimental flags, response validation and configured package names. Whenever generation succeeds, each of the five routes files must parse, sit in the configured package and type-check (go vet) against the engine, the user's controllers and the authorization package; gofmt -l is evaluated; a failed generation must leave no file. Compile failures are attributed by experiment (same project with the colliding parameters renamed). Sampling.",
+  text="Generated-input search over projects whose parameter names collide with identifiers the handlers declare, whose types come from several packages behind slices/pointers/maps, with every result shape, custom errors by value and pointer, experimental flags, response validation and configured package names. Whenever generation succeeds, each of the five routes files must parse, sit in the configured package and type-check (go vet) against the engine, the user's controllers and the authorization package; gofmt -l is evaluated; a failed generation must leave no file; a sixth file, written by the real `gleece generate spec-and-routes` for one engine, is checked the same way. Compile failures are attributed by experiment (same project with camel-case twins renamed apart, then with the colliding parameters renamed). Sampling.",
   note="Trusts: rapid; go vet as the type checker; the framework's own stubs/auth packages compile (checked by the same run).",
   ref="6/C09"),
  "C02": dict(
   technique="two-level property testing with rapid: generated batch projects -> five real generated routers compiled and mounted -> generated positive and negative request probes; oracle = call trace recorded by controller stubs vs the route model",
-  text="Generated-input search over projects and requests: every annotated route (hidden ones included) gets positive probes that must reach exactly that controller method on gin, echo, mux, chi and fiber; negative probes obtained by mutation (other verb, extra/missing/changed segment, another controller's prefix, would-be paths of decoy methods) must reach no controller on any engine. The route model is the same object C01's prediction uses, so documented subset-of served and the difference being the hidden routes follow. Sampling over projects (few) and requests (thousands).",
+  text="Generated-input search over projects and requests: every annotated route (hidden ones included, routes ending in a slash, several verbs per path, a mirrored controller) gets positive probes that must reach exactly that controller method on gin, echo, mux, chi and fiber; one engine per project (a function of the project) is served from the routes file the real `gleece generate spec-and-routes` wrote, the other four from in-process generation; negative probes obtained by mutation (other verb, extra/missing/changed segment, another controller's prefix, would-be paths of decoy methods) must reach no controller on any engine. The route model is the same object C01's prediction uses, so documented subset-of served and the difference being the hidden routes follow. Sampling over projects (few) and requests (thousands).",
   note=COMMON, ref="6/C02"),
  "C03": dict(
   technique="two-level property testing with rapid: generated projects x generated authorization policies x valid/invalid requests; oracle = ordered trace of authorization checks and controller calls on five mounted routers",
@@ -96,7 +96,7 @@ CHECKS = {
   note=COMMON, ref="6/C03"),
  "C05": dict(
   technique="two-level property testing with rapid: typed value generators per declared Go type and location (boundaries, unicode, reserved characters) + absent / ill-typed / validator-violating states; round trip request -> controller arguments on five routers",
-  text="Generated-input search over parameter lists (every primitive width, enums, aliases, query slices, pointers, context parameters, JSON bodies, form fields, wire-name aliases, validators) and requests in which each parameter is independently valid, absent, ill-typed or validator-violating. All valid => exactly one call whose recorded arguments equal the sent values position by position (nil iff an optional pointer is absent, context non-nil); otherwise 422 and no call; a crashing handler is a violation. Sampling.",
+  text="Generated-input search over parameter lists (every primitive width, enums, aliases, query slices, pointers, context parameters, JSON bodies, form fields, wire-name aliases, validators) and requests in which each parameter is independently valid, absent, ill-typed or validator-violating; path values range over reserved characters and unicode, header values may be empty, values that look like their own transport encoding (%41, a+b) are drawn one time in six, and parameter names are repeated in locations they are not declared in. All valid => exactly one call whose recorded arguments equal the sent values position by position (nil iff an optional pointer is absent, context non-nil); otherwise 422 and no call; a crashing handler is a violation. Sampling.",
   note=COMMON+" Validator semantics re-implemented for required/gt/gte/lt/lte/min/max/len/oneof and example-based for email/uuid/ipv4/hostname; other rules and slice-level validators leave the outcome unconstrained.", ref="6/C05"),
  "C12": dict(
   technique="differential property testing with rapid: the same generated requests against the five routers generated from one project; tuples (call, arguments, status, JSON body) compared",
